@@ -39,6 +39,8 @@ use access::{data_dir, keys, user_data};
 mod wallet_cmd;
 #[path = "cliparsers/extra.rs"]
 mod extra;
+#[path = "cliparsers/datamap.rs"]
+mod datamap;
 #[allow(dead_code, unused_imports)]
 mod wallet {
     pub const DUMMY_NETWORK: autonomi::Network = autonomi::Network::ArbitrumSepolia;
@@ -206,7 +208,7 @@ fn exec_op(line: &str, tmp: &std::path::Path) -> (String, String) {
                 let Some(Ok(a)) = unhex(b).map(<[u8; 32]>::try_from) else { return "bad-op".into() };
                 hex(addr_to_str(XorName(a)).as_bytes())
             }
-            other => extra::exec(other, tmp, &mut op).unwrap_or_else(|| "bad-op".into()),
+            other => extra::exec(other, tmp, &mut op).or_else(|| datamap::exec(other, &mut op)).unwrap_or_else(|| "bad-op".into()),
         }
     }));
     (op, r.unwrap_or_else(|_| "panic".into()))
@@ -267,7 +269,10 @@ fn oracle(line: &str, res: &str, out: &mut Out, tmp: &std::path::Path) {
                 out.oracle_fail("roundtrip", line, &format!("str_to_addr(addr_to_str(x)) = {back}"));
             }
         }
-        other => extra::oracle(other, res, line, out),
+        other => {
+            extra::oracle(other, res, line, out);
+            datamap::oracle(other, res, line, out);
+        }
     }
 }
 
@@ -512,6 +517,7 @@ fn main() {
             }
         }
         v.extend(extra::generate(&mut rng, args.n));
+        v.extend(datamap::generate(&mut rng, args.n));
         v
     };
     for l in &lines {
